@@ -252,6 +252,54 @@ func (e *explorer) generate(p params) {
 			each(func(l, f int) { e.add(&secMatrixDev, ps, specs, l, f, kind) })
 		})
 	}
+	// loss followed by many segments (buffer / page limits of the reassembler): one
+	// direction in k two byte segments with the third one missing, and the same with the
+	// third one delivered last (reordered, nothing lost)
+	if e.wants("longloss") {
+		sec := "longloss"
+		for _, k := range core.Pick(e.r, []int{8, 63, 64, 65, 66, 130}, []int{8, 31, 32, 33, 63, 64, 65, 66, 127, 128, 129, 130, 300, 1100}) {
+			segs := make([]int, k)
+			for i := range segs {
+				segs[i] = 2
+			}
+			for _, fl := range flagCombos() {
+				specs := []ConnSpec{{N: [2]int{2 * k, 1}, HS: fl[0], FIN: fl[1]}}
+				order := make([]int, 0, k+1)
+				for i := 0; i < k; i++ {
+					order = append(order, 0)
+				}
+				order = append(order, 1)
+				ps := baseHistory(specs, [][]int{segs, {1}}, order)
+				// index of the third data packet of direction 0
+				at, n := -1, 0
+				for i, p := range ps {
+					if p.Role == 'D' && p.Dir == 0 {
+						if n == 2 {
+							at = i
+							break
+						}
+						n++
+					}
+				}
+				if at < 0 {
+					continue
+				}
+				lost := append(append([]Pkt{}, ps[:at]...), ps[at+1:]...)
+				e.add(&sec, lost, specs, linkEthernet, fmtPcapLE, fmt.Sprintf("omit-3rd-of-%d", k))
+				// delivered late: right before the first control packet after the data
+				late := append([]Pkt{}, lost...)
+				pos := len(late)
+				for i := at; i < len(late); i++ {
+					if late[i].Role != 'D' {
+						pos = i
+						break
+					}
+				}
+				late = insertAt(late, pos, ps[at])
+				e.add(&sec, late, specs, linkEthernet, fmtPcapLE, fmt.Sprintf("late-3rd-of-%d", k))
+			}
+		}
+	}
 	if e.wants(secBig) {
 		for _, n := range p.Big {
 			bigHistories(n, func(specs []ConnSpec, ps []Pkt, kind string) {
@@ -424,6 +472,9 @@ levels:
 			e.exec(j, info, states)
 		}
 		e.levels[l] = nil
+	}
+	if !expired && e.wants("sections") {
+		multiSections(r, info)
 	}
 	for k, v := range info {
 		r.Count("info:"+k, v)
@@ -603,6 +654,15 @@ func trunc(s string) string {
 }
 
 func replay(r *core.Run, raw json.RawMessage) bool {
+	var sc SecCase
+	if json.Unmarshal(raw, &sc) == nil && sc.Kind == "sections" {
+		sig, msg := judgeSections(sc, map[string]int64{})
+		fmt.Printf("  pcapng file of %d sections: links %v big endian %v explicit section length %v\n  %s %s\n", len(sc.Links), sc.Links, sc.BE, sc.Explicit, sig, msg)
+		if f := os.Getenv("C19_DUMP"); f != "" {
+			_ = os.WriteFile(f, buildSections(sc), 0o644)
+		}
+		return sig != ""
+	}
 	var c Case
 	if err := json.Unmarshal(raw, &c); err != nil {
 		fmt.Println("bad case:", err)
